@@ -41,7 +41,12 @@ JUNK = ["this is not fortran", "end", "end module nonexistent", "contains", "&",
         "module procedure ghost", "use", "integer ::", "subroutine ()", "function f(", "! just a comment",
         "include 'missing_file.inc'", "#define X 1", "\tTAB\tseparated", "end subroutine end", "x = 1;; y = 2;",
         "character(len=*), parameter :: q = \"it's", "final :: nothing", "procedure :: nothing", "generic :: g => a, b",
-        "enum, bind(c)", "enumerator :: a = b", "common /blk/", "namelist /nl/"]
+        "enum, bind(c)", "enumerator :: a = b", "common /blk/", "namelist /nl/",
+        # text that looks like console markup, long unterminated literals
+        "& see [/quote] for details", "[bold]important[/bold] x = a[1] [/b]", "print *, a[i] [red]",
+        "write (*, *) 'a fairly long message that is never closed, value = , and more text follows here",
+        'print *, "it is broken here and the text goes on and on and on and on and on and on',
+        "msg = 'abc''def''ghi''jkl''mno''pqr''stu''vwx''yz and still no closing quote at all"]
 
 
 def budget(tier):
@@ -172,7 +177,9 @@ def gen_case(ch: Chooser, excl=()):
     kinds = []
     for i, plan in enumerate(plans):
         content, kind = corrupt(plan, texts)
-        bad[f"src/{plan['pos']}_bad{i}.f90"] = content
+        # (sometimes below a directory whose name looks like console markup)
+        sub = ["", "", "[old]/", "[bold]/"][plan["a"] % 4]
+        bad[f"src/{sub}{plan['pos']}_bad{i}.f90"] = content
         kinds.append(kind)
     names = sorted(P) + sorted(bad)
     order = [n for _, n in sorted(zip(order_key + [0] * len(names), names), key=lambda t: (t[0], t[1]))]
@@ -302,8 +309,8 @@ def _check(case) -> Result:
     res.classes += ["rejected"] * len(rejected) + ["accepted"] * len(accepted)
     res.nontrivial = bool(rejected) and len(P) >= 2
     for b in rejected:
-        name = b.rsplit("/", 1)[-1]
-        if name not in out1:
+        name = b[len("src/"):] if b.startswith("src/") else b        # path below the source directory
+        if name not in out1.replace("\n", ""):
             res.fail("rejected-file-not-named", f"{b} was skipped but no diagnostic names it; output: {out1[-300:]!r}")
     if not accepted:
         # absolute oracle (independent of what earlier cases may have left in the process): the call
